@@ -26,6 +26,7 @@ type Matcher struct {
 	quiet    int
 	GlobalAlias map[string]string // canonical global/function name of A -> canonical name in B
 	IgnoreCallees map[string]bool
+	Exact    bool // floating-point results must agree bit for bit
 }
 
 func NewMatcher(S *Store, pa, pb *Prog, a, b *Summary, seed uint64, points int) *Matcher {
@@ -96,7 +97,10 @@ func (m *Matcher) eqTerms(a, b *Term) (bool, string) {
 		vb := m.Env.Eval(b)
 		atB := filterAtoms(m.Env.Atoms, excl)
 		valid++
-		if !valsClose(va, vb) {
+		exactFloat = m.Exact
+		same := valsClose(va, vb)
+		exactFloat = false
+		if !same {
 			return false, fmt.Sprintf("values differ at sample point %d: %v vs %v", k, va, vb)
 		}
 		if ok, why := atomsEqual(atA, atB); !ok {
